@@ -442,7 +442,8 @@ class Engine:
                         root, path = ("P", ("val", v)), ()
                     ti = t["inner"] if t is not None and t["k"] in ("ref", "ptr") else None
             elif "f" in pr:
-                path = path + (pr["f"],)
+                if not (t is not None and t["k"] == "adt" and prog.transparent_adt(t["path"])):
+                    path = path + (pr["f"],)
                 ti = pr["ty"]
             elif "downcast" in pr:
                 path = path + (("v", pr["downcast"]),)
@@ -809,6 +810,9 @@ class Engine:
                 if is_enum:
                     out[("$discr",)] = ICONST(prog.variant_discr(ap, vi))
                     base = (("v", vi),)
+                if not is_enum and len(rv["ops"]) == 1 and prog.transparent_adt(ap):
+                    sub, _ = self.eval_operand_sub(st, fr, rv["ops"][0])
+                    return dict(sub)
                 for i, op in enumerate(rv["ops"]):
                     sub, _ = self.eval_operand_sub(st, fr, op)
                     fi = i
@@ -1025,6 +1029,8 @@ class Engine:
                         return None
                     f = a["variants"][0]["fields"]
                     ti = f[el]["ty"] if el < len(f) else None
+                    while ti is not None and prog.types[ti]["k"] == "adt" and prog.transparent_adt(prog.types[ti]["path"]):
+                        ti = prog.adts[prog.types[ti]["path"]]["variants"][0]["fields"][0]["ty"]
                 elif t["k"] == "closure":
                     ti = t["upvars"][el] if el < len(t["upvars"]) else None
                 else:
@@ -1035,6 +1041,8 @@ class Engine:
                 return None
             else:
                 return None
+        while ti is not None and prog.types[ti]["k"] == "adt" and prog.transparent_adt(prog.types[ti]["path"]):
+            ti = prog.adts[prog.types[ti]["path"]]["variants"][0]["fields"][0]["ty"]      # a newtype over an integer is that integer
         return ti
 
     def is_bool_place(self, root, path):
@@ -2220,9 +2228,12 @@ class Engine:
             if a["kind"] == "enum":
                 out[("$discr",)] = ICONST(prog.variant_discr(ap, vi))
                 basep = (("v", vi),)
-            for i, (sub, _) in enumerate(args):
-                for rel, v in sub.items():
-                    out[basep + (i,) + rel] = v
+            if a["kind"] != "enum" and len(args) == 1 and prog.transparent_adt(ap):
+                out = dict(args[0][0])
+            else:
+                for i, (sub, _) in enumerate(args):
+                    for rel, v in sub.items():
+                        out[basep + (i,) + rel] = v
             self.write_subtree(st, droot, dpath, out, node)
             return [(t["t"], st)] if t.get("t") is not None else []
         # std / dyn / unresolved: model
@@ -2338,6 +2349,8 @@ class Engine:
             if a["kind"] == "enum":
                 out[("$discr",)] = ICONST(prog.variant_discr(ap, vi))
                 basep = (("v", vi),)
+            if a["kind"] != "enum" and len(arg_subs) == 1 and prog.transparent_adt(ap):
+                return [(st, dict(arg_subs[0]))]
             for i, sub in enumerate(arg_subs):
                 for rel, v in sub.items():
                     out[basep + (i,) + rel] = v
